@@ -198,6 +198,12 @@ def run_case(case):
                     bad("gradjac_crash|" + type(e).__name__, f"from_grad_jac raised {type(e).__name__}: {e}", at)
                     continue
                 check_gradjac(sc, grad, J, bad, at)
+                # the weights are a function of the input alone (also for empty rows): recompute with a polluted allocator
+                junk = [np.full(k, 1e300) for k in (m, n, m, n, m + n) for _ in range(4)]
+                del junk
+                sc2 = Scaling.from_grad_jac(grad.copy(), as_format(J, fmt))
+                if not (np.array_equal(sc.var_weights, sc2.var_weights) and np.array_equal(sc.cons_weights, sc2.cons_weights)):
+                    bad("gradjac_not_deterministic", f"two calls with the same input give weights {np.asarray(sc.cons_weights).tolist()} and {np.asarray(sc2.cons_weights).tolist()}", at)
         key = f"gradjac|{m}x{n}|{case['pat']}|{case['rot']}"
     elif kind == "kkt":
         n, m = case["n"], case["m"]
